@@ -6,7 +6,9 @@ import numpy as np
 
 from ..gen import shot_histories as H
 from ..gen import shots as G
+from ..gen import shots_wide as W
 from ..ref import stats as R
+from ..ref import stats_multiset as RM
 
 ID = "C10"
 LEVEL = "exploration"
@@ -26,43 +28,101 @@ RULE = (
     "reordering; the caller modifying a returned histogram / result arrays / a counts argument after the call; "
     "copy, deepcopy, a second object on the same list) followed by queries on the same and on the other objects; "
     "repeated calls of the frequency / parity helpers whose arguments keep identity, key set, total, shape or "
-    "length while their content changes (in place or as new objects). A case is non-trivial when (history classes) "
+    "length while their content changes (in place or as new objects); class scale: (a) registers of 9-257 qubits (one below / "
+    "at / one above 16, 32, 64, 128, 256 and values in between), 1-60 shots (up to 300 all distinct) whose outcomes "
+    "differ on the qubits above the highest word boundary (styles: pool / only the high qubits vary / all ones, all "
+    "zeros and blocks / outcomes one edge qubit apart / all distinct), terms and marked qubits on the qubits next to "
+    "and above the boundaries (single high qubit / overlapping low-high pairs / all and all-but-one qubits / blocks "
+    "across a boundary / edge qubits / random), driven through every observed function, "
+    "both denominators; (b) 127-4097 and (1 case in 10) 32767-70000 shots on 1-8 qubits with the total and the "
+    "multiplicity of one outcome next to 8 / 12 / 15 / 16 bit counters, built from a list, from_counts or add_counts; "
+    "histograms handed to the frequency helper with entries of 2^15 ... 2^52; operators of 9-40 terms. "
+    "A case is non-trivial when (history classes) "
     "some object is queried, changed and queried again and the initial shots contain >= 2 distinct outcomes / two consecutive helper calls differ in content with a "
     "marked qubit or >= 2 terms, (other classes) the shots contain >=2 distinct outcomes and (operator classes) the "
-    "operator has >=2 terms of which at least one is not constant, or (helper classes) at least one qubit is marked; "
+    "operator has >=2 terms of which at least one is not constant, or (helper classes) at least one qubit is marked, "
+    "(wide registers) the shots contain >= 2 distinct outcomes and a term acts above the highest word boundary; "
     "distinct = distinct canonical case strings"
 )
 ASSUMPTIONS = [
-    "oracle = per-shot loops in plain Python (rv/ref/stats.py); tolerance 1e-12 x |c| (values), 1e-12 x |ci cj| "
+    "oracle = per-shot loops in plain Python (rv/ref/stats.py); for more than 400 shots, 8 qubits or 8 terms the same "
+    "loops run once per distinct outcome, weighted by its multiplicity, with exact integer tallies "
+    "(rv/ref/stats_multiset.py); tolerance 1e-12 x |c| (values), 1e-12 x |ci cj| "
     "(correlations), 1e-12 x |ci cj| / denominator (covariances); counts, parities and tallies are compared exactly",
     "zero shots and Bessel's correction on a single shot are outside the workload (mean / variance undefined; the "
     "single-shot divergence is documented) - values and correlations of the single-shot Bessel call are still judged",
-    "coefficients are real (int / float, occasionally a complex with zero imaginary part), finite, 0 or 1e-6..1e6 in magnitude",
+    "coefficients are finite numbers, 0 or 1e-6..1e6 in magnitude: int / float in most classes (occasionally a complex "
+    "with zero imaginary part). Genuinely complex coefficients are outside the oracles' domain: the property's quantifier "
+    "is over real coefficients, and for complex ones 'product of means' has no single reading (conjugated or not)",
     "from_counts / add_counts are judged as multisets of shots (the property does not fix an order)",
     "histories: every query is judged against the shots the object holds at the moment of the call (its public "
     "`bitstrings` list, read by the monitor after the call); nothing is demanded about whether two objects built "
     "from one list, or a copy and its original, share later changes - each is judged against its own current list; "
     "objects left without shots are only asked for their counts",
+    "the DECIDING entries in square brackets are the verdicts of the monitor named before the bracket, tallied a "
+    "second time for one branch / input class (they add to the total of monitor verdicts)",
 ]
 DECIDING = [
     "M.get_expectation_values", "M.get_counts", "M.from_counts", "M.add_counts", "M.get_distribution",
     "expectation_from_frequencies", "check_parity", "check_parity_of_vector", "get_parities_from_measurements",
     "counts-roundtrip", "counts-sum",
+    # verdicts of the monitors above, tallied once more per branch / input class that must have been judged
+    "M.get_expectation_values[plain denominator, real coefficients]",
+    "M.get_expectation_values[Bessel denominator, real coefficients]",
+    "M.get_expectation_values[term on a qubit >= 8 that varies over the shots]",
+    "M.get_expectation_values[term on a qubit >= 64 that varies over the shots]",
+    "M.get_expectation_values[>= 65536 shots]",
+    "M.get_expectation_values[>= 33 terms]",
+    "M.get_counts[>= 65536 shots]",
+    "M.get_distribution[>= 65536 shots]",
+    "get_parities_from_measurements[>= 65536 shots]",
+    "get_parities_from_measurements[term on a qubit >= 64 that varies over the shots]",
+    "expectation_from_frequencies[an outcome seen >= 2^32 times]",
+    "expectation_from_frequencies[marked qubit >= 64]",
+    "check_parity[marked qubit >= 64]",
+    "check_parity_of_vector[marked qubit >= 64]",
 ]
 BRANCHES = ["check_parity_of_vector:no-marked-qubits", "check_parity_of_vector:marked",
             "Measurements.get_expectation_values:pair-correlation"]
-BUDGET = {"quick": (4, 30, 8000), "thorough": (16, 120, 400000)}
+BUDGET = {"quick": (4, 30, 10000), "thorough": (16, 120, 400000)}
 
 _LIB = {}
 
 
 def classes(tier):
-    return ["expect", "expect_boundary", "counts", "freq", "parity", "parities", "history", "helper_history"]
+    return ["expect", "expect_boundary", "counts", "freq", "parity", "parities", "history", "helper_history",
+            "scale"]
 
 
 # ----------------------------------------------------------------------------- domain helpers
 def _is_int(x):
     return isinstance(x, (int, np.integer)) and not isinstance(x, (bool, np.bool_))
+
+
+_BITCHARS = {"0", "1"}
+_INT_TYPE = {}  # type -> is it an integer type that is not a boolean
+
+
+def _int_types(types):
+    for t in types:
+        ok = _INT_TYPE.get(t)
+        if ok is None:
+            ok = _INT_TYPE[t] = issubclass(t, (int, np.integer)) and not issubclass(t, (bool, np.bool_))
+        if not ok:
+            return False
+    return True
+
+
+def _clean_shot(s, bits_only=True):
+    """tuple of integers (bits_only: of 0 / 1) -> the same as a tuple of Python ints, else None"""
+    if not isinstance(s, tuple):
+        return None
+    types = set(map(type, s))
+    if not _int_types(types):
+        return None
+    if bits_only and not set(s) <= {0, 1}:
+        return None
+    return s if types == {int} or not types else tuple(map(int, s))
 
 
 def _shots_in_domain(bitstrings, allow_empty=False):
@@ -71,23 +131,35 @@ def _shots_in_domain(bitstrings, allow_empty=False):
         return None
     if not bitstrings:
         return [] if allow_empty else None
-    out = []
-    width = None
-    for s in bitstrings:
-        if not isinstance(s, tuple):
+    width = len(bitstrings[0]) if isinstance(bitstrings[0], tuple) else 0
+    if width == 0:
+        return None
+    # every distinct tuple OBJECT is validated once (lists of 70 000 shots repeat a few objects)
+    objs = {id(s): s for s in bitstrings}
+    clean = {}
+    same = True
+    for i, s in objs.items():
+        t = _clean_shot(s)
+        if t is None or len(t) != width:
             return None
-        if width is None:
-            width = len(s)
-        if len(s) != width or width == 0:
-            return None
-        for b in s:
-            if not _is_int(b) or b not in (0, 1):
-                return None
-        out.append(tuple(int(b) for b in s))
+        same = same and t is s
+        clean[i] = t
+    if same:
+        return list(bitstrings)
+    return [clean[id(s)] for s in bitstrings]
+
+
+def _counts_of_tally(tally):
+    """multiset of clean shots -> histogram keyed by 0/1 strings"""
+    out = {}
+    for shot, m_ in tally.items():
+        key = "".join("1" if b == 1 else "0" for b in shot)
+        out[key] = out.get(key, 0) + m_
     return out
 
 
-def _real_coeff(c):
+def _coeff_in_domain(c):
+    """finite number -> int / float (also for a complex without imaginary part) or complex; else None"""
     if isinstance(c, (bool, np.bool_)):
         return None
     if isinstance(c, (int, float, np.integer, np.floating)):
@@ -95,13 +167,17 @@ def _real_coeff(c):
         return c if math.isfinite(c) else None
     if isinstance(c, (complex, np.complexfloating)):
         c = complex(c)
-        if c.imag == 0 and math.isfinite(c.real):
-            return c.real
+        if not (math.isfinite(c.real) and math.isfinite(c.imag)):
+            return None
+        # the property quantifies over REAL coefficients ("all Ising operators (..., any real coefficients)"): an
+        # operator with a genuinely complex coefficient is outside every oracle's domain (a covariance that
+        # conjugates one factor, for instance, is a legitimate choice there that the statement does not rule out)
+        return c.real if c.imag == 0 else None
     return None
 
 
 def _terms_in_domain(op, width):
-    """Z-type operator with real finite coefficients whose qubits are inside the
+    """Z-type operator with finite coefficients whose qubits are inside the
     shots -> [(sorted qubits, coefficient)], else None"""
     if not isinstance(op, (_LIB["PauliTerm"], _LIB["PauliSum"])):
         return None
@@ -114,7 +190,7 @@ def _terms_in_domain(op, width):
             qs = sorted(int(q) for q in ops)
             if any(q < 0 or q >= width for q in qs):
                 return None
-            c = _real_coeff(t.coefficient)
+            c = _coeff_in_domain(t.coefficient)
             if c is None:
                 return None
             terms.append((qs, c))
@@ -139,6 +215,29 @@ def _close(got, exp, scale):
     return abs(got - exp) <= 1e-12 * scale
 
 
+def _is_large(n_shots, width, n_terms):
+    """inputs for which the per-shot loops of rv.ref.stats are replaced by the per-distinct-outcome
+    loops of rv.ref.stats_multiset (the same plain arithmetic, exact integer tallies)"""
+    return n_shots > 400 or width > 8 or n_terms > 8
+
+
+def _show_tally(tally, width):
+    if width <= 16:
+        return repr(dict(tally))
+    return "{" + ", ".join(f"0x{W.hex_of(s_)} (qubit k = bit k): {m_}" for s_, m_ in list(tally.items())[:12]) \
+        + (", ..." if len(tally) > 12 else "") + "}"
+
+
+def _varies_at_or_above(tally, b):
+    first = None
+    for s_ in tally:
+        if first is None:
+            first = s_[b:]
+        elif s_[b:] != first:
+            return True
+    return False
+
+
 # ----------------------------------------------------------------------------- monitors
 def _post_gev(mon, call):
     name = "M.get_expectation_values"
@@ -159,8 +258,13 @@ def _post_gev(mon, call):
         return
     res = call.result
     k = len(terms)
-    vals, corr, cov_num = R.expectation_values(terms, shots)
-    ctx = f"shots={dict(Counter(shots))!r} terms={terms!r} bessel={bessel}"
+    tally = Counter(shots)
+    width = len(shots[0])
+    if _is_large(n, width, k):
+        vals, corr, cov_num = RM.expectation_values(terms, tally.items())
+    else:
+        vals, corr, cov_num = R.expectation_values(terms, shots)
+    ctx = f"shots={_show_tally(tally, width)} terms={terms!r} bessel={bessel}"
     try:
         gv = np.asarray(res.values)
         gc = res.correlations
@@ -199,6 +303,18 @@ def _post_gev(mon, call):
                               f"{ctx}: covariance[{i},{j}] = {ge[i, j]!r}, (correlation - product of means)/{den} = {exp!r}")
                 return
     mon.ok(name)
+    # the same verdict, tallied per branch / input class that has to be deciding (see DECIDING)
+    cx = any(isinstance(c, complex) for _qs, c in terms)
+    mon.ok(f"{name}[{'Bessel' if bessel else 'plain'} denominator, {'complex' if cx else 'real'} coefficients]")
+    if len(tally) >= 2:
+        top = max((qs[-1] for qs, _c in terms if qs), default=-1)
+        for b in (8, 64):
+            if top >= b and _varies_at_or_above(tally, b):
+                mon.ok(f"{name}[term on a qubit >= {b} that varies over the shots]")
+        if n >= 65536:
+            mon.ok(f"{name}[>= 65536 shots]")
+        if k >= 33:
+            mon.ok(f"{name}[>= 33 terms]")
 
 
 def _post_counts(mon, call):
@@ -211,7 +327,7 @@ def _post_counts(mon, call):
     if call.exc is not None:
         mon.violation("counts-raises", f"get_counts on {len(shots)} shots raised {call.exc!r}")
         return
-    exp = R.counts(shots)
+    exp = _counts_of_tally(Counter(shots)) if len(shots) > 400 or (shots and len(shots[0]) > 8) else R.counts(shots)
     got = call.result
     ok = isinstance(got, dict) and set(got) == set(exp) and all(_is_int(v) and int(v) == exp[k_] for k_, v in got.items())
     if not ok:
@@ -221,6 +337,8 @@ def _post_counts(mon, call):
         mon.violation("counts-sum", f"counts {got!r} sum to {sum(got.values())}, {len(shots)} shots")
         return
     mon.ok(name)
+    if len(shots) >= 65536 and len(got) >= 2:
+        mon.ok(f"{name}[>= 65536 shots]")
 
 
 def _counts_in_domain(counts):
@@ -243,11 +361,14 @@ def _counts_in_domain(counts):
 
 
 def _multiset(bitstrings):
+    objs = {id(s): s for s in bitstrings}
+    per_object = Counter(map(id, bitstrings))
     out = Counter()
-    for s in bitstrings:
-        if not isinstance(s, tuple) or not all(_is_int(b) for b in s):
+    for i, s in objs.items():
+        t = _clean_shot(s, bits_only=False)
+        if t is None:
             return None
-        out[tuple(int(b) for b in s)] += 1
+        out[t] += per_object[i]
     return out
 
 
@@ -315,6 +436,8 @@ def _post_distribution(mon, call):
         mon.violation("distribution-wrong", f"{n} shots with counts {dict(Counter(shots))!r}: distribution {got!r}")
         return
     mon.ok(name)
+    if n >= 65536 and len(exp) >= 2:
+        mon.ok(f"{name}[>= 65536 shots]")
 
 
 def _snapshot_qubits(q):
@@ -341,7 +464,7 @@ def _post_freq(mon, call):
     total = 0
     acc = 0
     for key, v in freqs.items():
-        if not isinstance(key, str) or not key or any(ch not in "01" for ch in key) or not _is_int(v) or v < 0:
+        if not isinstance(key, str) or not key or not set(key) <= _BITCHARS or not _is_int(v) or v < 0:
             mon.out_of_domain(name)
             return
         if width is None:
@@ -364,6 +487,11 @@ def _post_freq(mon, call):
         mon.violation("frequencies-wrong", f"marked {qs!r} frequencies {freqs!r}: {got!r}, per-shot mean {exp!r}")
         return
     mon.ok(name)
+    if sum(1 for v in freqs.values() if v) >= 2 and qs:
+        if max(freqs.values()) >= 2 ** 32:
+            mon.ok(f"{name}[an outcome seen >= 2^32 times]")
+        if max(qs) >= 64:
+            mon.ok(f"{name}[marked qubit >= 64]")
 
 
 def _bits_of(bitstring):
@@ -397,6 +525,8 @@ def _post_parity(mon, call):
         mon.violation("parity-wrong", f"check_parity({_arg(call, 0, 'bitstring')!r}, {qs!r}) = {got!r}, even parity is {exp}")
         return
     mon.ok(name)
+    if qs and max(qs) >= 64:
+        mon.ok(f"{name}[marked qubit >= 64]")
 
 
 def _post_parity_vec(mon, call):
@@ -421,6 +551,8 @@ def _post_parity_vec(mon, call):
         mon.violation("parity-vector-wrong", f"rows {vec.tolist()[:10]!r} marked {qs!r}: {got_l!r}, expected {exp!r}")
         return
     mon.ok(name)
+    if qs and max(qs) >= 64:
+        mon.ok(f"{name}[marked qubit >= 64]")
 
 
 def _post_parities(mon, call):
@@ -435,12 +567,17 @@ def _post_parities(mon, call):
     if terms is None:
         mon.out_of_domain(name)
         return
-    ctx = f"shots={dict(Counter(shots))!r} terms={[t for t, _ in terms]!r}"
+    tally = Counter(shots)
+    width = len(shots[0])
+    ctx = f"shots={_show_tally(tally, width)} terms={[t for t, _ in terms]!r}"
     if call.exc is not None:
         mon.violation("parities-raises", f"{ctx}: {call.exc!r}")
         return
-    vals, corr = R.parities(terms, shots)
     k = len(terms)
+    if _is_large(len(shots), width, k):
+        vals, corr = RM.parities(terms, tally.items())
+    else:
+        vals, corr = R.parities(terms, shots)
     try:
         gv = np.asarray(call.result.values)
         gcs = call.result.correlations
@@ -462,6 +599,11 @@ def _post_parities(mon, call):
                               f"{ctx}: pair ({i},{j}) tallies {gc[i, j].tolist()!r}, even/odd shots of the product {corr[i][j]!r}")
                 return
     mon.ok(name)
+    top = max((qs[-1] for qs, _c in terms if qs), default=-1)
+    if top >= 64 and _varies_at_or_above(tally, 64):
+        mon.ok(f"{name}[term on a qubit >= 64 that varies over the shots]")
+    if len(shots) >= 65536 and len(tally) >= 2:
+        mon.ok(f"{name}[>= 65536 shots]")
 
 
 def install(mon, reach):
@@ -476,7 +618,7 @@ def install(mon, reach):
     reach.watch(PP.check_parity, "check_parity")
     reach.watch(PP.get_parities_from_measurements, "get_parities_from_measurements")
     reach.watch(MM.get_expectation_value_from_frequencies, "get_expectation_value_from_frequencies")
-    reach.watch(MM._convert_bitstrings_to_vector, "_convert_bitstrings_to_vector")
+    reach.watch(getattr(MM, "_convert_bitstrings_to_vector", None), "_convert_bitstrings_to_vector")
     reach.watch(M.get_expectation_values, "Measurements.get_expectation_values",
                 markers={"pair-correlation": r"symmetric_difference"})
     reach.watch(M.get_counts, "Measurements.get_counts")
@@ -818,6 +960,166 @@ def _run_helper_history(ctx, plan):
             check_parity(live, live_marked)
 
 
+# ----------------------------------------------------------------------------- wide registers, large numbers
+def _desc_wide(shots):
+    c = Counter(shots)
+    return f"n={len(shots)} w={len(shots[0])} counts(hex, qubit k = bit k)={sorted((W.hex_of(s), v) for s, v in c.items())!r}"
+
+
+def _marked_as(rng, qs, width):
+    kind = rng.choice(["tuple", "list", "set", "frozenset", "range"])
+    if kind == "range":
+        a = rng.choice(qs) if qs else 0
+        return range(a, min(width, a + rng.randint(1, 9)))
+    return {"tuple": tuple, "list": list, "set": set, "frozenset": frozenset}[kind](qs)
+
+
+def _run_wide(ctx):
+    """registers of 9-257 qubits; terms and marked qubits next to / above the byte and word
+    boundaries; every observed function"""
+    from orquestra.quantum.measurements import Measurements, check_parity, check_parity_of_vector, \
+        get_parities_from_measurements
+    from orquestra.quantum.measurements.measurements import get_expectation_value_from_frequencies
+
+    rng, mon = ctx.rng, ctx.mon
+    width = W.rand_width(rng)
+    sub = rng.choice(["expect", "expect", "expect", "expect", "parities", "counts", "freq", "parity", "vector"])
+    sstyle, shots = W.rand_wide_shots(rng, width, max_shots=40 if sub in ("parity", "vector") else 60)
+    tstyle, terms = W.rand_wide_terms(rng, width)
+    share = "real"
+    distinct = len(set(shots))
+    high = W.high_qubits(width)[0]
+    reaches = any(qs and qs[-1] >= high for qs, _ in terms)
+    mon.note(f"wide:{sub}")
+    mon.note(f"wide shots:{sstyle}")
+    mon.note(f"wide terms:{tstyle}")
+    mon.note(f"wide register:{'9-16' if width <= 16 else '17-32' if width <= 32 else '33-64' if width <= 64 else '65-128' if width <= 128 else '129-257'} qubits")
+    if sub in ("expect", "parities"):
+        bessel = rng.random() < 0.5
+        ctx.describe(f"wide {sub} shots[{sstyle}] {_desc_wide(shots)} terms[{tstyle},{share}]={terms!r} bessel={bessel}",
+                     distinct >= 2 and reaches)
+        op = build_operator(rng, terms)
+        given = _shots_as_given(rng, shots)
+        if sub == "parities":
+            get_parities_from_measurements(given, op)
+            return
+        m = Measurements(given)
+        m.get_expectation_values(op, bessel)
+        m.get_expectation_values(op, use_bessel_correction=not bessel)
+        return
+    if sub == "counts":
+        ctx.describe(f"wide counts shots[{sstyle}] {_desc_wide(shots)}", distinct >= 2)
+        m = Measurements(_shots_as_given(rng, shots))
+        c = m.get_counts()
+        ctx.check("counts-sum", sum(c.values()) == len(shots), lambda: f"{len(shots)} shots, counts {c!r}")
+        back = Measurements.from_counts(dict(c))
+        c2 = back.get_counts()
+        ctx.check("counts-roundtrip", c2 == c and len(back.bitstrings) == len(shots),
+                  lambda: f"counts {c!r} -> from_counts -> get_counts {c2!r} ({len(back.bitstrings)} shots)")
+        m.get_distribution()
+        extra = G.counts_of(W.rand_wide_shots(rng, width, max_shots=12)[1])
+        back.add_counts(extra)
+        c3 = back.get_counts()
+        ctx.check("counts-sum", sum(c3.values()) == len(shots) + sum(extra.values()),
+                  lambda: f"{len(shots)} shots + add_counts({extra!r}): counts {c3!r}")
+        return
+    marked = _marked_as(rng, list(terms[0][0]), width)
+    if sub == "freq":
+        freqs = G.counts_of(shots)
+        ctx.describe(f"wide freq marked={marked!r} {_desc_wide(shots)}", distinct >= 2 and len(list(marked)) >= 1)
+        get_expectation_value_from_frequencies(marked, freqs)
+        return
+    if sub == "parity":
+        bits = shots[0]
+        form = rng.choice(["str", "tuple", "list", "np"])
+        b = {"str": "".join(map(str, bits)), "tuple": bits, "list": list(bits),
+             "np": tuple(np.int64(x) for x in bits)}[form]
+        ctx.describe(f"wide parity scalar {form} 0x{W.hex_of(bits)} w={width} marked={marked!r}", len(list(marked)) >= 1)
+        check_parity(b, marked)
+        return
+    dt = rng.choice([int, np.int8, np.uint8, np.int64])
+    ctx.describe(f"wide parity vector {dt.__name__} {_desc_wide(shots)} marked={marked!r}",
+                 len(list(marked)) >= 1 and distinct >= 2)
+    check_parity_of_vector(np.array(shots, dtype=dt), marked)
+
+
+def _run_large(ctx):
+    """numbers above 8 / 16 / 32 bit counters: shots (and the multiplicity of one outcome),
+    histogram entries, terms of one operator"""
+    from orquestra.quantum.measurements import Measurements, get_parities_from_measurements
+    from orquestra.quantum.measurements.measurements import get_expectation_value_from_frequencies
+
+    rng, mon = ctx.rng, ctx.mon
+    sub = rng.choice(["shots", "shots", "shots", "hist", "hist", "hist", "terms"])
+    mon.note(f"large:{sub}")
+    if sub == "hist":
+        width = rng.choice([1, 2, 3, rng.randint(1, 8), W.rand_width(rng)])
+        freqs = W.rand_huge_counts(rng, width)
+        marked = _marked(rng, width) if width <= 8 else _marked_as(rng, list(W.rand_wide_terms(rng, width)[1][0][0]), width)
+        ctx.describe(f"large hist marked={marked!r} freqs={sorted(freqs.items())!r}", len(list(marked)) >= 1)
+        get_expectation_value_from_frequencies(marked, freqs)
+        return
+    if sub == "terms":
+        width = rng.randint(2, 8)
+        sstyle, shots = G.rand_shots(rng, width, max_shots=30)
+        terms = W.rand_many_terms(rng, width)
+        share = "real"
+        bessel = rng.random() < 0.5
+        what = rng.choice(["expect", "expect", "parities"]) if len(terms) <= 17 else "expect"
+        ctx.describe(f"large terms {what} shots[{sstyle}] {_desc_shots(shots)} {len(terms)} terms[{share}]={terms!r} bessel={bessel}",
+                     len(set(shots)) >= 2)
+        mon.note(f"large terms:{len(terms)}")
+        op = build_operator(rng, terms)
+        if what == "parities":
+            get_parities_from_measurements(list(shots), op)
+            return
+        m = Measurements(list(shots))
+        m.get_expectation_values(op, bessel)
+        m.get_expectation_values(op, not bessel)
+        return
+    big = rng.random() < 0.1
+    width = rng.choice([1, 2, 3, 4, rng.randint(1, 8)])
+    multiset, total = W.rand_many_shots(rng, width, big=big)
+    tstyle, terms = G.rand_terms(rng, width)
+    # the rare (and dear) lists of >= 32767 shots are put through every query
+    what = "all" if big else rng.choice(["expect", "expect", "counts", "parities"])
+    bessel = rng.random() < 0.5
+    ctx.describe(f"large shots {what} n={total} w={width} counts={sorted(multiset)!r} terms[{tstyle}]={terms!r} bessel={bessel}",
+                 len(multiset) >= 2)
+    mon.note(f"large shots:{'>= 32767' if big else '127-4097'}")
+    how = rng.choice(["list", "list", "from_counts", "add"])
+    shots = []
+    for s_, m_ in multiset:
+        shots += [s_] * m_
+    if how == "list":
+        if total <= 5000 and rng.random() < 0.5:
+            rng.shuffle(shots)
+        m = Measurements(shots)
+    elif how == "from_counts":
+        m = Measurements.from_counts(G.counts_of(shots))
+    else:
+        m = Measurements()
+        for s_, m_ in multiset:
+            m.add_counts({"".join(map(str, s_)): m_})
+    if what in ("counts", "all"):
+        c = m.get_counts()
+        ctx.check("counts-sum", sum(c.values()) == total, lambda: f"{total} shots, counts {c!r}")
+        back = Measurements.from_counts(dict(c))
+        c2 = back.get_counts()
+        ctx.check("counts-roundtrip", c2 == c and len(back.bitstrings) == total,
+                  lambda: f"counts {c!r} -> from_counts -> get_counts {c2!r} ({len(back.bitstrings)} shots)")
+        m.get_distribution()
+        if what == "counts":
+            return
+    op = build_operator(rng, terms)
+    if what in ("parities", "all"):
+        get_parities_from_measurements(m.bitstrings, op)
+        if what == "parities":
+            return
+    m.get_expectation_values(op, bessel)
+    m.get_expectation_values(op, not bessel)
+
+
 # ----------------------------------------------------------------------------- cases
 def run_case(ctx):
     from orquestra.quantum.measurements import Measurements, check_parity, check_parity_of_vector, \
@@ -960,6 +1262,14 @@ def run_case(ctx):
             ctx.describe(f"parity vector {dt.__name__} rows={shots!r} marked={marked!r}",
                          len(list(marked)) >= 1 and len(set(shots)) >= 2)
             check_parity_of_vector(np.array(shots, dtype=dt), marked)
+        return
+
+    if cls == "scale":
+        # sizes above plausible thresholds: wide registers / large numbers (shots, multiplicities, terms)
+        if rng.random() < 0.6:
+            _run_wide(ctx)
+        else:
+            _run_large(ctx)
         return
 
     if cls == "history":
